@@ -191,3 +191,87 @@ CHECKS["C14"] = {
                                  "is_strong_update=true is only passed for single-cell arrays (cfg.hpp: the flag is the client's knowledge that the store overwrites the array)"],
     "min_nontrivial_frac": 0.05,
 }
+
+CHECKS["C17"] = {
+    "jobs": [job("h_transform", 6000, 8, 80000, 16, fuzz_secs=300, fuzz_procs=4, env={"VERIF_TAPE_SCALE": "12"})],
+    "rule": "functions f() -> outputs (0-3 outputs, possibly arrays) built by the program generator: structured shapes, structured + decorations "
+            "(dead-end blocks, blocks unreachable from the entry, self loops, extra edges, edges back to the entry) and unstructured digraphs, always with an "
+            "exit block (whose outgoing edges are removed), numeric/boolean/array statements without division, `unreachable` in the middle of blocks, "
+            "interval-provable assertions; 1-3 transformation stages per case out of cfg::simplify(), dead_code_elimination and lower_safe_assertions (fed with "
+            "the safe set of a real flat-boolean+interval analysis + assertion checker), each applied to a clone() of the previous CFG. Oracle: clone() prints "
+            "like the original; the transformation does not raise CRAB_ERROR; the source CFG is unchanged; well-formedness (entry/exit kept and present, every "
+            "edge endpoint exists, v in next(u) <=> u in prev(v)); behaviour both ways: every exit-reaching execution of the original (2-4 initial states, <= 30 "
+            "blocks) has a counterpart in the transformed CFG with the same sequence of (condition text, outcome) and the same outputs at exit, found by a "
+            "bounded DFS over successor choices and havoc values, and conversely; an exhausted budget is inconclusive (counted), never a violation; "
+            "non-trivial = some stage changed the CFG text and an exit-reaching execution of that stage was matched; distinct = hash of the decoded case",
+    "assumptions": ["an exit block with successors is outside the domain (undocumented; the generator removes the exit's outgoing edges)",
+                    "programs contain no division/remainder, so no removed statement can fail (the proviso of C17)",
+                    "a lowered assertion is compared as a condition with its outcome, not as an assertion kind"],
+    "min_nontrivial_frac": 0.1,
+}
+CHECKS["C18"] = {
+    "jobs": [job("h_dataflow", 6000, 8, 80000, 16, fuzz_secs=300, fuzz_procs=4, env={"VERIF_TAPE_SCALE": "12"})],
+    "rule": "the C17 function generator. Liveness: a base execution keeps a snapshot at the end of every block; at 1-4 fork points every variable that "
+            "live_and_dead_analysis reports as not live at the end of the block is perturbed (int +-d, bool flip, one array cell) in a copy of the execution "
+            "that continues with the same remaining choices: block path, evaluated conditions with outcomes, assertion outcomes, end kind and outputs at exit "
+            "must be equal (common prefix when a run leaves the model); dead_exit is disjoint from live-out. Assertion crawler (both modes): every assertion "
+            "syntactically reachable from a block is a key of get_results(block); a variable perturbed at a block entry whose perturbation changes the operands "
+            "of an assertion evaluated later on the same path must be in the set listed for that assertion at that block; control dependences (path divergence) "
+            "are counted, not judged; non-trivial = a perturbed dead variable is later redefined and used, or a listed data dependence reaches an assertion >= 2 "
+            "blocks away through >= 1 assignment; distinct = hash of the decoded case",
+    "assumptions": ["an exit block with successors is outside the domain (as for C17)",
+                    "the crawler's control-dependence claims are not judged (the property speaks of values flowing into the condition)"],
+    "min_nontrivial_frac": 0.08,
+}
+
+BWD_Q = ["interval", "sdbm", "soct", "bool_int", "dbm"]
+TD_Q = ["interval", "sdbm", "bool_int"]
+BU_Q = ["bu_sdbm_interval", "bu_interval_interval", "bu_sdbm_sdbm", "bu_term_int_interval"]
+CALL_ASSUME = ["calls: fresh frame; inputs := actuals simultaneously; other callee variables arbitrary; a callee returns after executing its exit block; lhs := outputs simultaneously; "
+               "callees never assign their inputs; inputs and outputs are disjoint (cfg.hpp / top_down_inter_analyzer.hpp header comments)",
+               "concrete recursion is cut at call depth 6 (truncated, counted)"]
+CHECKS["C09"] = {
+    "jobs": [job("h_inter-" + d, 1500, 2, 25000, 4, fuzz_secs=300, fuzz_procs=2) for d in TD_Q],
+    "rule": "call graphs of 1-5 functions sharing one variable factory (names private or drawn from small shared pools so that caller/callee/formal/actual names collide; permuted, "
+            "repeated and constant actuals; lhs that are also arguments; DAGs, direct and mutual recursion (~18 %), orphan entry functions) analysed by top_down_inter_analyzer "
+            "with ALL parameters decoded (max_call_contexts inf/1/2/3, exact vs approximate reuse, precise vs imprecise recursion, delay, descending iterations, thresholds, "
+            "checker on/off, only_main_as_entry, keep_invariants, liveness, initial value); 8-24 concrete inter-procedural executions from every entry; every (function, block, "
+            "state) visited must be a member of get_pre/get_post of that block; every concrete call and 1-3 direct runs of each callee are checked against every stored "
+            "(pre, post) summary: inputs in pre => inputs+outputs in post; non-trivial = a concrete call returned and its callee has a summary/entry invariant neither top nor "
+            "bottom and shares a name with a caller or has >= 2 call sites; distinct = hash of the decoded call graph + parameters",
+    "assumptions": PROG_ASSUME + CALL_ASSUME,
+    "min_nontrivial_frac": 0.1,
+}
+CHECKS["C10"] = {
+    "jobs": [job("h_inter-" + d, 2000, 1, 25000, 3, fuzz_secs=300, fuzz_procs=1) for d in BU_Q],
+    "rule": "the C09 call-graph generator restricted to the documented domain of the bottom-up analyzer (main is the only function without callers and is not recursive; "
+            "recursion among other functions allowed) analysed by bottom_up_inter_analyzer<cg, summary domain, forward domain> for (sdbm, interval), (interval, interval), (sdbm, "
+            "sdbm), (term_int, interval): block invariants of the top-down phase vs concrete executions from main as in C09; every terminating concrete run of a non-main "
+            "function from ARBITRARY decoded inputs (called directly by the interpreter) and every concrete call must satisfy the function's bottom-up summary; non-trivial as C09; "
+            "distinct = hash of the decoded call graph + parameters",
+    "assumptions": PROG_ASSUME + CALL_ASSUME,
+    "min_nontrivial_frac": 0.1,
+}
+BWD_KNOWN_NOTE = "array_adaptive backward transfer functions (h_bwd-aa_int) carry recorded findings, see known_findings.json"
+CHECKS["C11"] = {
+    "jobs": [job("h_bwd-" + d, 1200, 2, 20000, 4, fuzz_secs=300, fuzz_procs=2) for d in BWD_Q] + [job("h_bwd-aa_int", 800, 1, 8000, 2)],
+    "rule": "programs of the C01 generator with an exit that every block can reach (edges added by construction), numeric/boolean/callsite statements (arrays for the "
+            "array_adaptive variant), 1-2 appended assertions; necessary_preconditions_fixpoint_iterator in error mode (error states = violated assertions) and in good mode "
+            "(post-condition = 0-2 decoded constraints), with supplied forward invariants none or those of a real forward run; 8-24 concrete executions, starting at any block "
+            "when no invariants are supplied, with start values on the bounds of the reported precondition; for every execution that violates an assertion (resp. completes the "
+            "exit block in the post-condition) every earlier (block, entry state) must be a member of the precondition reported for that block; an execution that lies outside "
+            "the supplied forward invariants is not judged; non-trivial = such an execution passing through >= 2 distinct blocks whose precondition is neither top nor bottom; "
+            "distinct = hash of the decoded case",
+    "assumptions": PROG_ASSUME + ["the backward analysis only speaks about blocks that reach the exit (it works on the reversed CFG)", BWD_KNOWN_NOTE],
+    "min_nontrivial_frac": 0.08,
+}
+CHECKS["C02"]["jobs"] += [job("h_bwd-" + d, 800, 1, 12000, 2, fuzz_secs=300, fuzz_procs=1) for d in ["interval", "sdbm", "bool_int"]] + \
+                         [job("h_inter-" + d, 800, 1, 12000, 2) for d in ["interval", "sdbm", "bu_sdbm_interval", "bu_interval_interval"]]
+CHECKS["C02"]["rule"] += ("; the same comparison for the checker run on intra_forward_backward_analyzer (h_bwd: backward on/off, 0-5 refinement iterations, refined invariants "
+                          "on/off: with refined invariants UNREACHABLE is only held to the SAFE standard), for the checker interleaved with the top-down inter-procedural analyzer "
+                          "(an assertion is claimed safe only if its verdict list is non-empty and every entry is safe/unreachable) and for inter_checker on the bottom-up analyzer")
+CHECKS["C02"]["assumptions"] = PROG_ASSUME + CALL_ASSUME
+CHECKS["C05"]["jobs"] += [job("h_bwd-" + d, 500, 1, 8000, 2) for d in ["interval", "sdbm"]] + [job("h_inter-" + d, 500, 1, 8000, 2) for d in ["interval", "bool_int", "bu_sdbm_interval"]]
+CHECKS["C05"]["rule"] += ("; the same deterministic budget (5*10^6 / 2*10^7 events) around the backward, forward+backward, top-down (incl. direct and mutual recursion, precise and "
+                          "imprecise) and bottom-up analyses")
+CHECKS["C05"]["assumptions"] = PROG_ASSUME + CALL_ASSUME
